@@ -188,11 +188,11 @@ def _mro_parent_chain(cls) -> List[Tuple[str, Tuple[int, int, int]]]:
 _INSTALLED_INSTANCES: Dict[str, List[dict]] = {
     "core.file": [
         {"filename": "a.txt", "encodingFormat": "text/plain", "contentSize": 3, "sha256": "sha256:" + "a" * 64},
-        {"filename": "b.bin", "encodingFormat": "application/octet-stream", "contentSize": 0, "sha256": "sha256:" + "0" * 64, "name": "a title"},
+        {"filename": "b.bin", "encodingFormat": "application/octet-stream", "contentSize": 0, "sha256": "sha256:" + "0" * 64, "name": "a title", "duration": "PT12.5S"},
     ],
     "core.imagefile": [
         {"filename": "a.png", "encodingFormat": "image/png", "contentSize": 30, "sha256": "sha256:" + "b" * 64, "width": 3, "height": 4},
-        {"filename": "c.jpg", "encodingFormat": "image/jpeg", "contentSize": 1, "sha256": "sha256:" + "c" * 64, "width": 640, "height": 480},
+        {"filename": "c.jpg", "encodingFormat": "image/jpeg", "contentSize": 1, "sha256": "sha256:" + "c" * 64, "width": 640, "height": 480, "duration": "-PT4S"},
     ],
     "core.dir": [
         {},
